@@ -150,8 +150,11 @@ class CSSCharsetRule(cssrule.CSSRule):
             )
         else:
             try:
-                codecs.lookup(encoding)
-            except LookupError:
+                if codecs.lookup(encoding).name == 'css':
+                    raise LookupError('"css" names no encoding of its own')
+                # and a text encoding a sheet can be serialized with
+                'a'.encode(encoding, 'replace')
+            except (LookupError, UnicodeError):
                 self._log.error(
                     'CSSCharsetRule: Unknown (Python) encoding %r.' % encoding
                 )
